@@ -113,6 +113,9 @@ type sideCfg struct {
 	Accept  []uint32 `json:"accept"`
 	Verify  bool     `json:"verify"`
 	CV      string   `json:"cv"`
+	// ViaService: the checker is the one a real secure service builds in its Init, with Accept delivered through the
+	// application's "config" component (sub-check f) instead of the checker constructors
+	ViaService bool `json:"via_service,omitempty"`
 }
 
 func (s sideCfg) String() string {
@@ -124,6 +127,13 @@ func (s sideCfg) String() string {
 }
 
 func (s sideCfg) checker() handshake.CredentialChecker {
+	if s.ViaService {
+		cc, err := secureservice.VerifServiceChecker(s.Version, s.Accept, s.CV, accts[s.Acct].keys, s.Verify)
+		if err != nil {
+			panic(fmt.Sprintf("c14: secure service Init with version %d and configured list %v: %v", s.Version, s.Accept, err))
+		}
+		return cc
+	}
 	if s.Verify {
 		return secureservice.VerifNewPeerSignVerifier(s.Version, s.Accept, s.CV, accts[s.Acct].keys)
 	}
